@@ -64,7 +64,14 @@ def e2e(item):
             r = R.equal(R.Impl(x), R.Impl(y))
             if r is not None:
                 return ('violation', p, fl, kind, f'name {R.to_str(r[0])!r}: RAWCHARS pattern {"matches" if r[1] else "rejects"}, decoded pattern {dec!r} {"matches" if r[2] else "rejects"}')
-        # without RAWCHARS nothing is decoded: `\\x41` is an escaped x followed by 41
+        # the matcher's own regexes (compile path) must agree as well
+        cp, cn = W.compile_pattern(p, api._flag_transform(fl | W.RAWCHARS))
+        if [len(cp), len(cn)] != [len(x) for x in b]:
+            return ('violation', p, fl, kind, f'matcher: {len(cp)}+{len(cn)} regexes with RAWCHARS, {len(b[0])}+{len(b[1])} for the decoded pattern {dec!r}')
+        for x, y in zip(cp + cn, b[0] + b[1]):
+            r = R.equal(R.Impl(x), R.Impl(y))
+            if r is not None:
+                return ('violation', p, fl, kind, f'matcher, name {R.to_str(r[0])!r}: RAWCHARS pattern {"matches" if r[1] else "rejects"}, decoded pattern {dec!r} {"matches" if r[2] else "rejects"}')
         return ('ok',)
     except (R.Unsupported, R.StateLimit) as e:
         return ('open', p, fl, kind, str(e))
